@@ -143,6 +143,31 @@ def extract(repo=None, features=(), crate="tinylfu_cached", keep=False):
     return out
 
 
+def run_witnesses(wanted):
+    """compile-fail witnesses + compiling twins of witness/ (thorough tier): returns obligations"""
+    import re
+    wdir = os.path.join(VERIF, "witness")
+    shutil.copyfile(os.path.join(REPO, "Cargo.lock"), os.path.join(wdir, "Cargo.lock"))
+    env = dict(os.environ, RUSTFLAGS="-Zallow-features=", RUSTDOCFLAGS="-Zallow-features=", CARGO_NET_OFFLINE="true",
+               CARGO_TARGET_DIR=os.path.join(WORK, "witness-target"))
+    r = subprocess.run(["cargo", "+nightly", "test", "--doc", "--offline"], cwd=wdir, env=env, stdout=subprocess.PIPE, stderr=subprocess.STDOUT, text=True)
+    out = []
+    seen = {}
+    for m in re.finditer(r"^test src/lib.rs - (\w+) \(line (\d+)\) - (compile fail|compile) \.\.\. (\w+)", r.stdout, re.M):
+        name, line, kind, res = m.group(1), m.group(2), m.group(3), m.group(4)
+        if name not in wanted:
+            continue
+        idx = seen.get((name, kind), 0)
+        seen[(name, kind)] = idx + 1
+        out.append({"key": "WITNESS|%s|%s#%d" % (name, kind.replace(" ", "-"), idx), "rule": "WITNESS", "status": "ok" if res == "ok" else "violated",
+                    "desc": "compile-fail witness (external user code must be rejected by the type checker with the stated error code)" if kind == "compile fail" else "compiling twin of a witness (differs only in the offending line)",
+                    "where": "witness/src/lib.rs:%s" % line, "detail": "", "config": "witness"})
+    for w in wanted:
+        if not any(o["key"].startswith("WITNESS|%s|" % w) for o in out):
+            out.append({"key": "WITNESS|%s|missing" % w, "rule": "WITNESS", "status": "violated", "desc": "witness did not run", "where": "", "detail": r.stdout[-400:], "config": "witness"})
+    return out
+
+
 def load_known():
     p = os.path.join(VERIF, "known_findings.json")
     if not os.path.exists(p):
@@ -191,6 +216,8 @@ def run_property(prop, tier, facts_path=None, repo=None, quiet=False, write_evid
                 "desc": "positive control: the rule must fire on deliberately broken fixture code",
                 "where": fr.get("where", ""), "detail": fr.get("detail", ""), "config": "fixture",
             })
+    if tier == "thorough" and getattr(mod, "WITNESSES", None) and not repo:
+        all_obl += run_witnesses(mod.WITNESSES)
     known = load_known()
     known_keys = {k["key"]: k for k in known.get("known", []) if k["property"] == prop}
     violations = [o for o in all_obl if o["status"] == "violated"]
